@@ -45,8 +45,13 @@ type replacerCompiler struct {
 	dots     []token.Pos
 	dotAssoc map[token.Pos]token.Pos
 
+	// Positions of "..." that stand where no elision is supported.
+	strayDots []token.Pos
+
 	patchStart, patchEnd token.Pos
 }
+
+var dotsPtrType = reflect.TypeOf((*pgo.Dots)(nil))
 
 func newReplacerCompiler(fset *token.FileSet, meta *Meta, patchStart, patchEnd token.Pos) *replacerCompiler {
 	return &replacerCompiler{
@@ -106,6 +111,11 @@ func (c *replacerCompiler) compile(v reflect.Value) Replacer {
 
 	case goast.PosType:
 		return c.compilePosReplacer(v)
+	case dotsPtrType:
+		// Elisions in lists and "for ..." were consumed by their
+		// containers. Anything else would put a "..." into the output.
+		c.strayDots = append(c.strayDots, v.Interface().(*pgo.Dots).Pos())
+		return ZeroReplacer{Type: v.Type()}
 	}
 
 	return c.compileGeneric(v)
